@@ -310,13 +310,19 @@ func (m *Model) applyManifestPut(repo string, v manVerdict, body []byte, now tim
 		if !ok {
 			r.blobs[v.digest] = &MBlob{data: body, born: now, acked: now}
 		} else {
-			// olareg re-creates the blob only if it is missing; its age may be the old one
 			b.maybeGone = false
-			b.acked = now
 		}
 	}
+	// (the manifest's own grace period starts over below; the blob's does not: once the manifest is deleted nobody relies
+	// on it. The server may well have touched the blob, though: it is not "old" for the must-remove set)
+	r.blobs[v.digest].acked = now
 	delete(r.blobDeleted, v.digest)
 	if x, ok := r.mans[v.digest]; ok {
+		// a push that was acknowledged again counts as a push: the grace period starts over
+		if now.After(x.born) {
+			x.born = now
+		}
+		x.acked = now
 		x.maybeGone = false
 		x.mt = v.mt
 		x.mts[v.mt] = true
@@ -755,6 +761,13 @@ func (m *Model) shapeHash() uint64 {
 	}
 	fmt.Fprintf(h, "s%d", open)
 	return h.Sum64()
+}
+
+// refresh moves the earliest possible write time of the blob forward: it was uploaded (again) at t.
+func (b *MBlob) refresh(t time.Time) {
+	if t.After(b.born) {
+		b.born = t
+	}
 }
 
 // causeOf names the known family of defect that may explain why d is affected: d itself, or a manifest that
